@@ -642,4 +642,19 @@ def parseResp (eof : Bool) (methods : List Bytes) (bs : Bytes) : Option (List RM
   parseResponses (bs.length + 2) eof methods bs
 
 end Ref
+/-- hyper-h2 `_initialize_content_length` + `_track_content_length`: what hyper-h2 checks of a message's DATA frames
+    against its content-length field(s) (`headResp`: the response to a HEAD request; `endOnTrailers`: the stream is
+    ended by a trailers HEADERS frame) -/
+def h2ClOk (headResp : Bool) (b : Block) (bodyLen : Nat) (endOnTrailers : Bool := false) : Bool :=
+  let cls := valuesOf sCL b
+  if headResp then bodyLen = 0
+  else if !cls.all (fun v => !v.isEmpty && v.all isDigit) then false
+  else match cls.map Ref.parseDec with
+    | [] => true
+    | some n :: rest =>
+      -- the final comparison is made on the DATA frame that carries END_STREAM; a stream ended by trailers only
+      -- passes the running check "not more than announced"
+      rest.all (· == some n) && (bodyLen = 0 || (if endOnTrailers then decide (bodyLen ≤ n) else n = bodyLen))
+    | _ => false
+
 end MitmVerif.C06
